@@ -323,3 +323,44 @@ func liftCell(fn *ssa.Function, al *ssa.Alloc) {
 		}
 	}
 }
+
+// canonicaliseComparisons: a comparison whose left operand is a constant and whose right operand is not
+// (`0 == len(x)`, `"eq" == f.Op`, `32 > len(input)`) is turned round in place (`len(x) == 0`, …), and so is one
+// whose right operand is a loop counter (`limit > i`). The rules
+// read comparisons with the constant on the right, which is how the repository writes them; the other
+// spelling means the same and must not make a difference. Only the operator and the operand order of the
+// instruction change: same value, same referrers, same branch edges.
+func canonicaliseComparisons(fns []*ssa.Function) {
+	seen := map[*ssa.Function]bool{}
+	var visit func(f *ssa.Function)
+	visit = func(f *ssa.Function) {
+		if f == nil || seen[f] {
+			return
+		}
+		seen[f] = true
+		for _, b := range f.Blocks {
+			for _, in := range b.Instrs {
+				bo, ok := in.(*ssa.BinOp)
+				if !ok {
+					continue
+				}
+				_, xc := bo.X.(*ssa.Const)
+				_, yc := bo.Y.(*ssa.Const)
+				// the constant goes right; so does the bound of a counting loop (`n > i` is `i < n`)
+				turn := (xc && !yc) || (!xc && !yc && isInduction(stripConv(bo.Y)) && !isInduction(stripConv(bo.X)))
+				if !turn {
+					continue
+				}
+				if m := mirrored(bo); m != nil {
+					bo.Op, bo.X, bo.Y = m.Op, m.X, m.Y
+				}
+			}
+		}
+		for _, af := range f.AnonFuncs {
+			visit(af)
+		}
+	}
+	for _, f := range fns {
+		visit(f)
+	}
+}
